@@ -29,7 +29,10 @@ use quote::ToTokens;
 use std::path::Path;
 use syn::visit::Visit;
 
-pub const TARGETS: &[Target] = &[("scopefacts", "ScopeFacts", scopefacts as Gen)];
+pub const TARGETS: &[Target] = &[
+    ("scopefacts", "ScopeFacts", scopefacts as Gen),
+    ("scopeimports", "ScopeImportsLoop", scopeimports as Gen),
+];
 
 fn codes(s: &str) -> String {
     format!("[{}]", s.chars().map(|c| (c as u32).to_string()).collect::<Vec<_>>().join(", "))
@@ -281,5 +284,215 @@ fn scopefacts(repo: &Path) -> Result<String, String> {
     out.push_str(&format!("def rootFile : List Nat := {}\n\n", codes(&root_file)));
     out.push_str(&format!("/-- the file name whose module is named after its directory -/\ndef namedAfterDirectory : List Nat := {}\n\n", codes(&named_after_dir)));
     out.push_str("end RotoV.Gen.ScopeFacts\n");
+    Ok(out)
+}
+
+// ---------------------------------------------------------------- `imports`
+//
+// `TypeChecker::imports` (src/typechecker/mod.rs) is transliterated statement by
+// statement into the little language of `lean/RotoV/Model/ScopeImportsLoop.lean`
+// (`IBlock`); `RotoV.C13.imports_loop_as_modelled` proves that the transliterated
+// body means `Scope.imports`.  Anything outside the statement forms listed there
+// is an extraction failure.  Also read off: which functions call `self.import` /
+// `self.imports`, and that `declare_imports` / `block` hand *all* import paths of
+// the scope to one `imports` call.
+
+fn is_hook(attrs: &[syn::Attribute]) -> bool {
+    attrs.iter().any(|a| flat(a).starts_with("#[cfg(feature=\"verif-hooks\")]"))
+}
+
+struct LoopTr {
+    vars: Vec<String>,
+}
+
+impl LoopTr {
+    fn len_expr(&self, e: &syn::Expr) -> Result<String, String> {
+        match e {
+            syn::Expr::Paren(p) => self.len_expr(&p.expr),
+            syn::Expr::Lit(syn::ExprLit { lit: syn::Lit::Int(i), .. }) => Ok(format!("(.lit {})", i.base10_digits())),
+            syn::Expr::Path(p) => {
+                let n = flat(p);
+                match self.vars.iter().position(|v| *v == n) {
+                    Some(i) => Ok(format!("(.var {i})")),
+                    None => Err(format!("imports: `{n}` is not a length bound by `let … = paths.len()`")),
+                }
+            }
+            _ if flat(e) == "paths.len()" => Ok(".len".into()),
+            _ => Err(format!("imports: length expression `{}` outside the subset", flat(e))),
+        }
+    }
+    fn cond(&self, e: &syn::Expr) -> Result<String, String> {
+        match e {
+            syn::Expr::Paren(p) => self.cond(&p.expr),
+            syn::Expr::Unary(u) if matches!(u.op, syn::UnOp::Not(_)) => Ok(format!("(.not {})", self.cond(&u.expr)?)),
+            syn::Expr::Binary(b) => {
+                let op = match b.op {
+                    syn::BinOp::Eq(_) => "eq",
+                    syn::BinOp::Ne(_) => "ne",
+                    syn::BinOp::Lt(_) => "lt",
+                    syn::BinOp::Le(_) => "le",
+                    syn::BinOp::Gt(_) => "gt",
+                    syn::BinOp::Ge(_) => "ge",
+                    _ => return Err(format!("imports: condition `{}` outside the subset", flat(e))),
+                };
+                Ok(format!("(.cmp .{op} {} {})", self.len_expr(&b.left)?, self.len_expr(&b.right)?))
+            }
+            _ if flat(e) == "paths.is_empty()" => Ok(".isEmpty".into()),
+            _ => Err(format!("imports: condition `{}` outside the subset", flat(e))),
+        }
+    }
+    fn block(&mut self, stmts: &[syn::Stmt]) -> Result<String, String> {
+        let mut out: Vec<String> = vec![];
+        for st in stmts {
+            match st {
+                syn::Stmt::Local(l) => {
+                    if is_hook(&l.attrs) {
+                        continue;
+                    }
+                    let name = flat(&l.pat).trim_start_matches("mut").to_string();
+                    let init = l.init.as_ref().ok_or_else(|| format!("imports: `let {name}` without a value"))?;
+                    if init.diverge.is_some() || flat(&init.expr) != "paths.len()" || !matches!(l.pat, syn::Pat::Ident(_)) {
+                        return Err(format!("imports: `{}` outside the subset (only `let v = paths.len();`)", flat(l)));
+                    }
+                    let i = match self.vars.iter().position(|v| *v == name) {
+                        Some(i) => i,
+                        None => {
+                            self.vars.push(name);
+                            self.vars.len() - 1
+                        }
+                    };
+                    out.push(format!("(.letLen {i})"));
+                }
+                syn::Stmt::Expr(e, _) => out.push(self.stmt_expr(e)?),
+                syn::Stmt::Macro(m) if is_hook(&m.attrs) => continue,
+                other => return Err(format!("imports: statement `{}` outside the subset", flat(other))),
+            }
+        }
+        let mut s = ".done".to_string();
+        for x in out.iter().rev() {
+            s = format!("(.seq {x} {s})");
+        }
+        Ok(s)
+    }
+    fn stmt_expr(&mut self, e: &syn::Expr) -> Result<String, String> {
+        let txt = flat(e);
+        match e {
+            _ if txt == "paths.retain(|p|self.import(scope,p).is_err())" => Ok(".retainFailed".into()),
+            syn::Expr::ForLoop(f) => {
+                let over = flat(&f.expr);
+                if f.label.is_none() && flat(&f.pat) == "p" && (over == "&paths" || over == "paths.iter()") && flat(&f.body) == "{self.import(scope,p)?;}" {
+                    Ok(".tryEach".into())
+                } else {
+                    Err(format!("imports: loop `{txt}` outside the subset"))
+                }
+            }
+            syn::Expr::If(i) => {
+                let c = self.cond(&i.cond)?;
+                let t = self.block(&i.then_branch.stmts)?;
+                let el = match &i.else_branch {
+                    None => ".done".to_string(),
+                    Some((_, e)) => match &**e {
+                        syn::Expr::Block(b) if b.label.is_none() => self.block(&b.block.stmts)?,
+                        syn::Expr::If(_) => format!("(.seq {} .done)", self.stmt_expr(e)?),
+                        other => return Err(format!("imports: else branch `{}` outside the subset", flat(other))),
+                    },
+                };
+                Ok(format!("(.ite {c} {t} {el})"))
+            }
+            syn::Expr::Return(r) if r.expr.as_ref().is_some_and(|x| flat(x) == "Ok(())") => Ok(".retOk".into()),
+            _ if txt == "Ok(())" => Ok(".retOk".into()),
+            syn::Expr::Loop(l) if l.label.is_none() => Ok(format!("(.loop {})", self.block(&l.body.stmts)?)),
+            syn::Expr::Break(b) if b.label.is_none() && b.expr.is_none() => Ok(".brk".into()),
+            _ => Err(format!("imports: statement `{txt}` outside the subset")),
+        }
+    }
+}
+
+/// names of the functions (of the given files) whose body contains `needle`
+struct Callers<'a> {
+    needle: &'a str,
+    found: Vec<String>,
+}
+impl<'ast> Visit<'ast> for Callers<'_> {
+    fn visit_impl_item_fn(&mut self, i: &'ast syn::ImplItemFn) {
+        if !is_hook(&i.attrs) && flat(&i.block).contains(self.needle) {
+            self.found.push(i.sig.ident.to_string());
+        }
+    }
+    fn visit_item_fn(&mut self, i: &'ast syn::ItemFn) {
+        if !is_hook(&i.attrs) && flat(&i.block).contains(self.needle) {
+            self.found.push(i.sig.ident.to_string());
+        }
+    }
+}
+
+fn scopeimports(repo: &Path) -> Result<String, String> {
+    let mod_rs = find::parse(repo, "src/typechecker/mod.rs")?;
+    let f = find::func(&mod_rs, "imports", Some("TypeChecker"))?;
+    let params: Vec<String> = f.sig.inputs.iter().filter_map(|a| match a {
+        syn::FnArg::Typed(t) => Some(flat(&t.pat)),
+        _ => None,
+    }).collect();
+    if params != ["scope", "paths"] {
+        return Err(format!("imports: parameters {params:?}, expected scope, paths"));
+    }
+    let stmts: Vec<syn::Stmt> = f.block.stmts.iter().filter(|s| !matches!(s, syn::Stmt::Local(l) if is_hook(&l.attrs))).cloned().collect();
+    let Some((first, rest)) = stmts.split_first() else { return Err("imports: empty body".into()) };
+    if flat(first) != "letmutpaths=paths.to_vec();" {
+        return Err(format!("imports: the body does not start with `let mut paths = paths.to_vec();` but `{}`", flat(first)));
+    }
+    let mut tr = LoopTr { vars: vec![] };
+    let body = tr.block(rest)?;
+
+    // who calls `import` / `imports`
+    let mut files = vec![mod_rs.clone()];
+    for rel in ["src/typechecker/expr.rs", "src/typechecker/scope.rs", "src/typechecker/info.rs"] {
+        files.push(find::parse(repo, rel)?);
+    }
+    let callers = |needle: &str| -> Vec<String> {
+        let mut c = Callers { needle, found: vec![] };
+        for f in &files {
+            c.visit_file(f);
+        }
+        c.found.sort();
+        c.found
+    };
+    let import_callers = callers("self.import(");
+    let imports_callers = callers("self.imports(");
+
+    // `declare_imports`: per module, one vector collects the paths of every import
+    // declaration, and one `imports` call gets it after the collecting loop
+    let f = find::func(&mod_rs, "declare_imports", None)?;
+    let mut whole_module = false;
+    for st in &f.block.stmts {
+        if let syn::Stmt::Expr(syn::Expr::ForLoop(outer), _) = st {
+            let direct: Vec<String> = outer.body.stmts.iter().map(|s| flat(s)).collect();
+            let decl = direct.iter().position(|s| s == "letmutpaths=Vec::new();");
+            let call = direct.iter().position(|s| s == "self.imports(scope,&paths)?;");
+            let collect = outer.body.stmts.iter().position(|s| matches!(s, syn::Stmt::Expr(syn::Expr::ForLoop(inner), _)
+                if flat(&inner.expr) == "&module.ast.declarations" && flat(&inner.body).contains("paths.push(path)") && !flat(&inner.body).contains("self.imports(")));
+            if let (Some(d), Some(c), Some(k)) = (decl, collect, call) {
+                whole_module = d < c && c < k && flat(&outer.expr) == "modules";
+            }
+        }
+    }
+    // `block`: the block's whole import list in one call, before the statements
+    let expr_rs = find::parse(repo, "src/typechecker/expr.rs")?;
+    let f = find::func(&expr_rs, "block", None)?;
+    let txt = flat(&f.block);
+    let whole_block = match (txt.find("self.imports(scope,&block.imports.iter().collect::<Vec<_>>())?;"), txt.find("forstmtin&block.stmts")) {
+        (Some(a), Some(b)) => a < b,
+        _ => false,
+    };
+
+    let names = |v: &[String]| format!("[{}]", v.iter().map(|s| codes(s)).collect::<Vec<_>>().join(", "));
+    let mut out = String::new();
+    out.push_str("/- GENERATED by /verif/extract from src/typechecker/{mod,expr}.rs — do not edit. -/\nimport RotoV.Model.ScopeImportsLoop\n\nnamespace RotoV.Gen.ScopeImportsLoop\nopen RotoV.Scope.Loop\n\n");
+    out.push_str(&format!("/-- the body of `TypeChecker::imports` after `let mut paths = paths.to_vec();`\n    (length variables in order of binding: {}) -/\ndef importsBody : IBlock :=\n  {body}\n\n", tr.vars.join(", ")));
+    out.push_str(&format!("/-- the functions that call `self.import(…)` (character codes) -/\ndef importCallers : List (List Nat) := {}\n\n", names(&import_callers)));
+    out.push_str(&format!("/-- the functions that call `self.imports(…)` -/\ndef importsCallers : List (List Nat) := {}\n\n", names(&imports_callers)));
+    out.push_str(&format!("/-- `declare_imports` collects the paths of every import declaration of a module and hands them to one `imports` call -/\ndef declareImportsWholeModule : Bool := {whole_module}\n\n"));
+    out.push_str(&format!("/-- `block` hands the block's whole import list to one `imports` call before its statements -/\ndef blockImportsWhole : Bool := {whole_block}\n\n"));
+    out.push_str("end RotoV.Gen.ScopeImportsLoop\n");
     Ok(out)
 }
